@@ -4,7 +4,8 @@ import (
 	"io"
 	"net"
 	"sync"
-	"testing/synctest"
+	"sync/atomic"
+	"time"
 
 	"verif/harness/hlref"
 )
@@ -12,7 +13,7 @@ import (
 // Conn is the harness side of one simulated TCP connection.  A dedicated reader
 // goroutine drains everything the server writes into an unbounded buffer (net.Pipe has no
 // buffer of its own); writes are issued from a separate goroutine and followed by
-// synctest.Wait(), so protocol logic only looks at the buffer at quiescence.
+// Quiesce(), so protocol logic only looks at the buffer at quiescence.
 type Conn struct {
 	w          *World
 	Remote     string
@@ -29,8 +30,10 @@ type Conn struct {
 	wq         chan []byte // write queue: one writer goroutine issues the Write calls in order
 	writerDone chan struct{}
 	closed     bool
-	ReadHook   func(n int) // called by the reader goroutine after each read (C14 slow reader)
-	Split      Splitter    // optional: how Send / SendParts cut their bytes into separate Write calls
+	ReadHook   func(n int)  // called by the reader goroutine after each read
+	readChunk  atomic.Int64 // size of the reader's buffer (0 = 64 KiB); small values make a slow consumer
+	readDelay  atomic.Int64 // nanoseconds to sleep after each read (fake time inside a bubble)
+	Split      Splitter     // optional: how Send / SendParts cut their bytes into separate Write calls
 
 	// protocol state (control connections)
 	nextID uint32
@@ -38,10 +41,15 @@ type Conn struct {
 	Bad    error        // first framing error seen while parsing the stream
 }
 
-func newConn(w *World, remote string) *Conn {
+func newConn(w *World, remote string) *Conn { return newConnOpts(w, remote, nil) }
+
+func newConnOpts(w *World, remote string, opts []func(*Conn)) *Conn {
 	c1, c2 := net.Pipe()
 	c := &Conn{w: w, Remote: remote, client: c1, server: c2, readerDone: make(chan struct{}), srvDone: make(chan struct{}), nextID: 1,
 		wq: make(chan []byte, 1<<14), writerDone: make(chan struct{})}
+	for _, o := range opts {
+		o(c)
+	}
 	w.mu.Lock()
 	w.conns = append(w.conns, c)
 	w.mu.Unlock()
@@ -77,7 +85,11 @@ func (c *Conn) reader() {
 	defer close(c.readerDone)
 	buf := make([]byte, 1<<16)
 	for {
-		n, err := c.client.Read(buf)
+		sz := int(c.readChunk.Load())
+		if sz <= 0 || sz > len(buf) {
+			sz = len(buf)
+		}
+		n, err := c.client.Read(buf[:sz])
 		c.mu.Lock()
 		c.rx = append(c.rx, buf[:n]...)
 		if err != nil {
@@ -86,6 +98,9 @@ func (c *Conn) reader() {
 		c.mu.Unlock()
 		if c.ReadHook != nil && n > 0 {
 			c.ReadHook(n)
+		}
+		if d := c.readDelay.Load(); d > 0 && err == nil {
+			time.Sleep(time.Duration(d))
 		}
 		if err != nil {
 			return
@@ -100,6 +115,14 @@ type Splitter interface {
 	Boundary() bool
 }
 
+// SetSlow turns the connection's reader into a slow consumer: at most chunk bytes per read,
+// then a pause.  While it is slow, quiescence (synctest.Wait) can be reached with data
+// still in flight, so callers let fake time pass before inspecting the buffer.
+func (c *Conn) SetSlow(chunk int, delay time.Duration) {
+	c.readChunk.Store(int64(chunk))
+	c.readDelay.Store(int64(delay))
+}
+
 // Send writes b and waits for quiescence: with a single Write call (one "segment"), or cut
 // into several Write calls when a Splitter is installed.
 func (c *Conn) Send(b []byte) {
@@ -108,7 +131,7 @@ func (c *Conn) Send(b []byte) {
 		return
 	}
 	c.SendAsync(b)
-	synctest.Wait()
+	Quiesce()
 }
 
 // SendParts sends several messages back to back.  Without a Splitter each message is one
@@ -118,7 +141,7 @@ func (c *Conn) SendParts(parts [][]byte) {
 	if c.Split == nil {
 		for _, p := range parts {
 			c.SendAsync(p)
-			synctest.Wait()
+			Quiesce()
 		}
 		return
 	}
@@ -161,7 +184,7 @@ func (c *Conn) SendSegments(b []byte, cuts []int) {
 		prev = k
 	}
 	c.SendAsync(b[prev:])
-	synctest.Wait()
+	Quiesce()
 }
 
 // Close closes the client end (the server sees EOF / closed pipe).
@@ -179,7 +202,7 @@ func (c *Conn) Close() {
 
 // Bytes returns everything received so far (at quiescence).
 func (c *Conn) Bytes() []byte {
-	synctest.Wait()
+	Quiesce()
 	c.mu.Lock()
 	defer c.mu.Unlock()
 	return append([]byte{}, c.rx...)
@@ -187,7 +210,7 @@ func (c *Conn) Bytes() []byte {
 
 // EOF reports whether the server closed the connection.
 func (c *Conn) EOF() bool {
-	synctest.Wait()
+	Quiesce()
 	c.mu.Lock()
 	defer c.mu.Unlock()
 	return c.eof
@@ -195,7 +218,7 @@ func (c *Conn) EOF() bool {
 
 // Take consumes exactly n not-yet-taken bytes if they are available at quiescence.
 func (c *Conn) Take(n int) ([]byte, bool) {
-	synctest.Wait()
+	Quiesce()
 	c.mu.Lock()
 	defer c.mu.Unlock()
 	if len(c.rx)-c.taken < n {
@@ -208,7 +231,7 @@ func (c *Conn) Take(n int) ([]byte, bool) {
 
 // Rest consumes all not-yet-taken bytes.
 func (c *Conn) Rest() []byte {
-	synctest.Wait()
+	Quiesce()
 	c.mu.Lock()
 	defer c.mu.Unlock()
 	out := append([]byte{}, c.rx[c.taken:]...)
@@ -218,7 +241,7 @@ func (c *Conn) Rest() []byte {
 
 // Pending returns the number of not-yet-taken bytes.
 func (c *Conn) Pending() int {
-	synctest.Wait()
+	Quiesce()
 	c.mu.Lock()
 	defer c.mu.Unlock()
 	return len(c.rx) - c.taken
@@ -226,7 +249,7 @@ func (c *Conn) Pending() int {
 
 // ServerDone reports whether the server-side handler for this connection has returned.
 func (c *Conn) ServerDone() (bool, error) {
-	synctest.Wait()
+	Quiesce()
 	select {
 	case <-c.srvDone:
 		return true, c.srvErr
@@ -250,7 +273,7 @@ func (c *Conn) Handshake() bool {
 
 // pump parses newly received bytes into transactions.
 func (c *Conn) pump() []hlref.Tran {
-	synctest.Wait()
+	Quiesce()
 	c.mu.Lock()
 	defer c.mu.Unlock()
 	ts, rest, err := hlref.DecodeStream(c.rx[c.taken:])
@@ -270,7 +293,7 @@ func (c *Conn) Poll() []hlref.Tran {
 
 // Partial returns the number of received bytes that do not yet form a whole transaction.
 func (c *Conn) Partial() int {
-	synctest.Wait()
+	Quiesce()
 	c.mu.Lock()
 	defer c.mu.Unlock()
 	return len(c.rx) - c.taken
